@@ -150,4 +150,79 @@ mod verif_replay_sendio {
             assert_eq!(run(&doc), Ok(vec!["delivered".to_string()]), "reply with <send {}>", delay);
         }
     }
+
+    const TIMER_ORDER: &str = r###"<scxml xmlns="http://www.w3.org/2005/07/scxml" initial="s0" version="1.0" datamodel="rfsm-expression">
+ <state id="s0">
+  <onentry><send event="late" delay="600ms"/><send event="early" delay="200ms"/><send event="end" delay="1200ms"/><raise event="now"/></onentry>
+  <transition event="now" target="s1"/>
+  <transition event="*" target="delayed_before_internal"/>
+ </state>
+ <state id="s1">
+  <transition event="early" target="s2"/>
+  <transition event="*" target="wrongorder"/>
+ </state>
+ <state id="s2">
+  <transition event="late" target="s3"/>
+  <transition event="*" target="wrongorder2"/>
+ </state>
+ <state id="s3">
+  <transition event="end" target="pass"/>
+  <transition event="*" target="duplicate"/>
+ </state>
+ <final id="pass"/><final id="delayed_before_internal"/><final id="wrongorder"/><final id="wrongorder2"/><final id="duplicate"/>
+</scxml>"###;
+
+    /// C16 (bounded): delayed sends are delivered once each, in due-time order, and not before their delay has passed
+    #[test]
+    fn verif_replay_sendio_delayed_order_once_not_early() {
+        let t0 = std::time::Instant::now();
+        assert_eq!(run(TIMER_ORDER), Ok(vec!["pass".to_string()]));
+        let ms = t0.elapsed().as_millis();
+        assert!(ms >= 1200, "the session ended after {} ms although its last delayed event was due after 1200 ms", ms);
+    }
+
+    const TIMER_CANCEL: &str = r###"<scxml xmlns="http://www.w3.org/2005/07/scxml" initial="s0" version="1.0" datamodel="rfsm-expression">
+ <state id="s0">
+  <onentry>
+   <send event="e.a" id="a" delay="300ms"/><send event="e.b" id="b" delay="300ms"/><send event="end" delay="900ms"/>
+   <cancel sendid="a"/>
+  </onentry>
+  <transition event="e.b" target="s1"/>
+  <transition event="e.a" target="notcancelled"/>
+  <transition event="end" target="otherlost"/>
+ </state>
+ <state id="s1">
+  <transition event="end" target="pass"/>
+  <transition event="e.a" target="notcancelled"/>
+ </state>
+ <final id="pass"/><final id="notcancelled"/><final id="otherlost"/>
+</scxml>"###;
+
+    /// C16 (bounded): <cancel> with a send id prevents that delivery and no other
+    #[test]
+    fn verif_replay_sendio_cancel_only_that_send() {
+        assert_eq!(run(TIMER_CANCEL), Ok(vec!["pass".to_string()]));
+        let by_expr = TIMER_CANCEL.replace(r#"<cancel sendid="a"/>"#, r#"<cancel sendidexpr="'a'"/>"#);
+        assert_eq!(run(&by_expr), Ok(vec!["pass".to_string()]));
+    }
+
+    const TIMER_DISCARD: &str = r###"<scxml xmlns="http://www.w3.org/2005/07/scxml" initial="s0" version="1.0" datamodel="rfsm-expression">
+ <state id="s0">
+  <invoke type="scxml" id="kid"><content><scxml xmlns="http://www.w3.org/2005/07/scxml" initial="c0" version="1.0" datamodel="rfsm-expression"><state id="c0"><onentry><send target="#_parent" event="child.late" delay="400ms"/></onentry><transition target="cf"/></state><final id="cf"/></scxml></content></invoke>
+  <transition event="done.invoke" target="s1"/>
+  <transition event="child.late" target="beforedone"/>
+ </state>
+ <state id="s1">
+  <onentry><send event="end" delay="1s"/></onentry>
+  <transition event="child.late" target="notdiscarded"/>
+  <transition event="end" target="pass"/>
+ </state>
+ <final id="pass"/><final id="notdiscarded"/><final id="beforedone"/>
+</scxml>"###;
+
+    /// C16 (bounded): a session that terminates discards its undelivered delayed events
+    #[test]
+    fn verif_replay_sendio_terminated_session_discards_delayed() {
+        assert_eq!(run(TIMER_DISCARD), Ok(vec!["pass".to_string()]));
+    }
 }
